@@ -10,7 +10,7 @@ use crate::num::Enc;
 use crate::sx::*;
 use crate::with_ty;
 use easy_ml::differentiation::{Trace, WengertList};
-use easy_ml::numeric::extra::{Cos, Exp, Ln, Pow, RealRef, Sin, Sqrt};
+use easy_ml::numeric::extra::RealRef;
 use easy_ml::numeric::ZeroOne;
 
 #[path = "c04/prog.rs"]
@@ -25,163 +25,6 @@ pub fn run(args: &[Sx]) -> Sx {
         }
         _ => bad_case(),
     }
-}
-
-fn tt<T: Num>(o: u8, f: usize, a: &Trace<T>, b: &Trace<T>) -> Trace<T>
-where
-    for<'t> &'t T: RealRef<T>,
-{
-    macro_rules! forms {
-        ($op:tt) => {
-            match f {
-                0 => a $op b,
-                1 => a.clone() $op b.clone(),
-                2 => a.clone() $op b,
-                _ => a $op b.clone(),
-            }
-        };
-    }
-    match o {
-        0 => forms!(+),
-        1 => forms!(-),
-        2 => forms!(*),
-        3 => forms!(/),
-        _ => match f {
-            0 => Pow::pow(a, b),
-            1 => Pow::pow(a.clone(), b.clone()),
-            2 => Pow::pow(a.clone(), b),
-            _ => Pow::pow(a, b.clone()),
-        },
-    }
-}
-
-fn tn<T: Num>(o: u8, f: usize, a: &Trace<T>, c: &T) -> Trace<T>
-where
-    for<'t> &'t T: RealRef<T>,
-{
-    macro_rules! forms {
-        ($op:tt) => {
-            match f {
-                0 => a $op c,
-                1 => a.clone() $op c.clone(),
-                2 => a.clone() $op c,
-                _ => a $op c.clone(),
-            }
-        };
-    }
-    match o {
-        0 => forms!(+),
-        1 => forms!(-),
-        2 => forms!(*),
-        3 => forms!(/),
-        _ => match f {
-            0 => Pow::pow(a, c),
-            1 => Pow::pow(a.clone(), c.clone()),
-            2 => Pow::pow(a.clone(), c),
-            _ => Pow::pow(a, c.clone()),
-        },
-    }
-}
-
-fn npow<T: Num>(f: usize, c: &T, b: &Trace<T>) -> Trace<T>
-where
-    for<'t> &'t T: RealRef<T>,
-{
-    match f {
-        0 => Pow::pow(c, b),
-        1 => Pow::pow(c.clone(), b.clone()),
-        2 => Pow::pow(c.clone(), b),
-        _ => Pow::pow(c, b.clone()),
-    }
-}
-
-fn un<T: Num>(u: u8, f: usize, a: &Trace<T>) -> Trace<T>
-where
-    for<'t> &'t T: RealRef<T>,
-{
-    macro_rules! forms {
-        ($tr:ident :: $m:ident) => {
-            if f % 2 == 0 {
-                $tr::$m(a)
-            } else {
-                $tr::$m(a.clone())
-            }
-        };
-    }
-    match u {
-        0 => {
-            if f % 2 == 0 {
-                -a
-            } else {
-                -(a.clone())
-            }
-        }
-        1 => forms!(Sin::sin),
-        2 => forms!(Cos::cos),
-        3 => forms!(Exp::exp),
-        4 => forms!(Ln::ln),
-        _ => forms!(Sqrt::sqrt),
-    }
-}
-
-/// `seeded`: the trace to use for the variable instruction at position `seed`
-fn run_traces<T: Num>(prog: &[Ins<T>], seed: usize, seeded: Trace<T>, mode: u8) -> Vec<Trace<T>>
-where
-    for<'t> &'t T: RealRef<T>,
-{
-    let mut nodes: Vec<Trace<T>> = Vec::with_capacity(prog.len());
-    let other = mode == 5;
-    for (k, ins) in prog.iter().enumerate() {
-        let f = form_of(mode, k);
-        let r: Trace<T> = match ins {
-            Ins::Var(x) => {
-                if k == seed {
-                    seeded.clone()
-                } else {
-                    Trace::constant(x.clone())
-                }
-            }
-            Ins::Const(c) => Trace::constant(c.clone()),
-            Ins::Bin(o, a, b) => tt::<T>(*o, f, &nodes[*a], &nodes[*b]),
-            Ins::BinC(o, a, c) => {
-                if other {
-                    tt::<T>(*o, 0, &nodes[*a], &Trace::constant(c.clone()))
-                } else {
-                    tn::<T>(*o, f, &nodes[*a], c)
-                }
-            }
-            // number - trace and number / trace do not exist: lift the number
-            Ins::CBin(o, c, b) => {
-                if *o == 4 && !other {
-                    npow::<T>(f, c, &nodes[*b])
-                } else {
-                    tt::<T>(*o, f, &Trace::constant(c.clone()), &nodes[*b])
-                }
-            }
-            Ins::Un(u, a) => un::<T>(*u, f, &nodes[*a]),
-            Ins::Sum(l) => {
-                if other {
-                    let mut total = Trace::<T>::zero();
-                    for &a in l {
-                        total = tt::<T>(0, a % 4, &total, &nodes[a]);
-                    }
-                    total
-                } else {
-                    l.iter().map(|&a| nodes[a].clone()).sum()
-                }
-            }
-            Ins::User1(g, a) => {
-                let g = *g;
-                nodes[*a].unary(|x| user1_f(g, x), |x| user1_df(g, x))
-            }
-            Ins::User2(g, a, b) => {
-                let g = *g;
-                nodes[*a].binary(&nodes[*b], |x, y| user2_f(g, x, y), |x, y| user2_dx(g, x, y), |x, y| user2_dy(g, x, y))
-            }
-        };
-        nodes.push(r);
-    }
-    nodes
 }
 
 fn go<T: Num>(seed: usize, body: &Sx, outs: &Sx) -> Sx
